@@ -52,6 +52,19 @@ def check(s, p, q):
                                  % (full, txt, e))
         if "".join(out) != s:
             return has, "C18 concatenated fullText %r differs from the input %r" % ("".join(out), s)
+        # the same instance, the same text once more: parsing is a function of the text
+        again = [line.fullText for line in p.parseLines(s)]
+        if again != out:
+            return has, ("C18 parsing %r a second time with the same parser instance gives %r, the first time %r"
+                         % (s, again, out))
+        for txt in out:
+            first = p.parse(txt)
+            g1, cs1 = first.gcode, first.commandString
+            if g1 is not None:
+                second = p.parse(cs1)
+                if (second.gcode, second.commandString) != (g1, cs1):
+                    return has, ("C18 the parser instance that produced the command string %r re-parses it as %r"
+                                 % (cs1, (second.gcode, second.commandString)))
     except Exception as e:   # noqa
         return has, "C18 parser raised %s on %r: %s" % (type(e).__name__, s, e)
     return has, None
